@@ -1,8 +1,8 @@
 (* C15: concurrent queues conserve their elements and per-producer order.  Statements only; proofs in CQueues/*Proofs.v *)
-From Coq Require Import List NArith ZArith Bool Permutation.
+From Coq Require Import List NArith ZArith Bool Permutation Sorted.
 Import ListNotations.
-From QV Require Import CQueues.Swsr CQueues.Hazard CQueues.Dq.
-From QV Require CQueues.SwsrProofs CQueues.HazardProofs CQueues.DqProofs.
+From QV Require Import CQueues.Swsr CQueues.Lfq CQueues.Hazard CQueues.Dq.
+From QV Require CQueues.SwsrProofs CQueues.LfqProofs CQueues.HazardProofs CQueues.DqProofs.
 Local Open Scope N_scope.
 
 (* ------------------------------------------------------------------ qswsrqueue: every interleaving of P and C, every size *)
@@ -70,62 +70,85 @@ Theorem create_size_spec : forall cw ps e sz, 0 < ps -> ps <= cw -> create_size 
 Proof. exact SwsrProofs.create_size_spec. Qed.
 Print Assumptions create_size_spec.
 
-(* ------------------------------------------------------------------ hazard pointers: scan under the explicit guard, refutations outside *)
+(* ------------------------------------------------------------------ qlfqueue: every interleaving, any number of threads
+   (micro-step model; linearizability is not claimed: the clauses of the property follow from the invariant) *)
+Theorem lfq_conservation_partial : forall progs sched,
+  let s := lrun (linit progs) sched in
+  map snd (g_deq s) = firstn (length (g_deq s)) (map snd (g_enq s)) /\ (length (g_deq s) <= length (g_enq s))%nat.
+Proof. exact LfqProofs.lfq_conservation_partial. Qed.
+Print Assumptions lfq_conservation_partial.
+
+Theorem lfq_deq_null_sound : forall progs sched,
+  let s := lrun (linit progs) sched in
+  forall t hd tl, pc_of s t = QdLdNext hd tl -> n_next (hget (s_heap s) hd) = 0 -> length (g_deq s) = length (g_enq s).
+Proof. exact LfqProofs.lfq_deq_null_sound. Qed.
+Print Assumptions lfq_deq_null_sound.
+
+Theorem lfq_empty_sound : forall progs sched,
+  let s := lrun (linit progs) sched in
+  forall t hd tl nx g s', pc_of s t = QmChk hd tl nx g -> lstep s t = Some (s', Some (LInt 1)) ->
+  (g <= length (g_deq s))%nat.
+Proof. exact LfqProofs.lfq_empty_sound. Qed.
+Print Assumptions lfq_empty_sound.
+
+Theorem lfq_per_producer_fifo : forall progs sched,
+  let s := lrun (linit progs) sched in
+  forall p, exists k,
+    map snd (filter (fun x => Nat.eqb (fst x) p) (g_enq s)) = firstn k (LfqProofs.enq_vals (nth p progs [])).
+Proof. exact LfqProofs.lfq_per_producer_fifo. Qed.
+Print Assumptions lfq_per_producer_fifo.
+
+Theorem lfq_consumer_results : forall progs sched,
+  (forall ops v, In ops progs -> In (LEnq v) ops -> v <> 0) ->
+  let s := lrun (linit progs) sched in
+  forall c th, nth_error (s_thr s) c = Some th ->
+    exists pending,
+      LfqProofs.deq_results (lt_out th) ++ pending = map snd (filter (fun x => Nat.eqb (fst x) c) (g_deq s)) /\
+      (length pending <= 1)%nat.
+Proof. exact LfqProofs.lfq_consumer_results. Qed.
+Print Assumptions lfq_consumer_results.
+
+Theorem lfq_completed_le_linked : forall progs sched,
+  let s := lrun (linit progs) sched in (completed_enq s <= length (g_enq s))%nat.
+Proof. exact LfqProofs.completed_le_linked. Qed.
+Print Assumptions lfq_completed_le_linked.
+
+(* ------------------------------------------------------------------ hazard pointers: the scan never frees a protected pointer *)
 Theorem scan_keeps_protected : forall slots me fl p w kept freed,
-  cmp_consistent (collect slots me) = true -> (me < length slots)%nat -> nth me slots [] <> [] ->
-  w <> me -> In p (nth w slots []) -> (w < length slots)%nat -> p <> 0 ->
+  w <> me -> (w < length slots)%nat -> In p (nth w slots []) ->
   scan slots me fl = Some (kept, freed) -> ~ In p freed.
 Proof. exact HazardProofs.scan_keeps_protected. Qed.
 Print Assumptions scan_keeps_protected.
 
-Theorem scan_total : forall slots me fl, (2 <= length (collect slots me))%nat -> scan slots me fl <> None.
+Theorem scan_total : forall slots me fl, scan slots me fl <> None.
 Proof. exact HazardProofs.scan_total. Qed.
 Print Assumptions scan_total.
 
-Theorem scan_protected_freed_refuted : exists slots me fl p w,
-  w <> me /\ In p (nth w slots []) /\ p <> 0 /\
-  exists kept freed, scan slots me fl = Some (kept, freed) /\ In p freed.
-Proof. exact HazardProofs.scan_protected_freed_refuted. Qed.
-Print Assumptions scan_protected_freed_refuted.
+Theorem scan_frees_unprotected : forall slots me fl kept freed p,
+  scan slots me fl = Some (kept, freed) -> In p kept -> In p (collect slots me).
+Proof. exact HazardProofs.scan_frees_unprotected. Qed.
+Print Assumptions scan_frees_unprotected.
 
-Theorem void_cmp_trunc_refuted : exists a b, a < b /\ (void_cmp a b > 0)%Z.
-Proof. exact HazardProofs.void_cmp_trunc_refuted. Qed.
-Print Assumptions void_cmp_trunc_refuted.
+Theorem void_cmp_spec : forall a b, (void_cmp a b ?= 0)%Z = (a ?= b).
+Proof. exact HazardProofs.void_cmp_spec. Qed.
+Print Assumptions void_cmp_spec.
 
-Theorem void_cmp_zero_sign : forall p, p < 2^64 ->
-  (2^31 < p mod 2^32 -> (void_cmp 0 p > 0)%Z) /\ (0 < p mod 2^32 < 2^31 -> (void_cmp 0 p < 0)%Z).
-Proof. exact HazardProofs.void_cmp_zero_sign. Qed.
-Print Assumptions void_cmp_zero_sign.
-
-Theorem void_cmp_near_ok : forall a b, (Z.abs (Z.of_N a - Z.of_N b) < 2^31)%Z -> cmp_ok a b = true.
-Proof. exact HazardProofs.void_cmp_near_ok. Qed.
-Print Assumptions void_cmp_near_ok.
-
-Theorem bsearch_finds : forall l x len i, N.of_nat (length l) = len ->
-  (forall j k, j <= k -> k < len -> at_ l j <= at_ l k) -> 1 <= i < len -> at_ l i = x ->
-  binary_search l x len = Some true.
-Proof. exact HazardProofs.bsearch_finds. Qed.
-Print Assumptions bsearch_finds.
-
-Theorem bsearch_total : forall l x len, 2 <= len -> binary_search l x len <> None.
+Theorem bsearch_total : forall l x len, binary_search l x len <> None.
 Proof. exact HazardProofs.bsearch_total. Qed.
 Print Assumptions bsearch_total.
 
-Theorem bsearch_never_index0 : forall l x len, 2 <= len ->
-  (forall i, 1 <= i < len -> at_ l i <> x) -> binary_search l x len <> Some true.
-Proof. exact HazardProofs.bsearch_never_index0. Qed.
-Print Assumptions bsearch_never_index0.
+Theorem bsearch_finds : forall l x len i,
+  (forall j k, j <= k -> k < len -> at_ l j <= at_ l k) -> i < len -> at_ l i = x -> binary_search l x len = Some true.
+Proof. exact HazardProofs.bsearch_finds. Qed.
+Print Assumptions bsearch_finds.
 
-Theorem bsearch_index0_refuted : exists l len, 2 <= len /\ N.of_nat (length l) = len /\
-  (forall j k, j <= k -> k < len -> at_ l j <= at_ l k) /\ binary_search l (at_ l 0) len = Some false.
-Proof. exact HazardProofs.bsearch_index0_refuted. Qed.
-Print Assumptions bsearch_index0_refuted.
+Theorem bsearch_sound : forall l x len, binary_search l x len = Some true -> exists i, i < len /\ at_ l i = x.
+Proof. exact HazardProofs.bsearch_sound. Qed.
+Print Assumptions bsearch_sound.
 
-Theorem own_slots_zero_mask : forall slots me,
-  cmp_consistent (collect slots me) = true -> (me < length slots)%nat -> nth me slots [] <> [] ->
-  at_ (isort (collect slots me)) 0 = 0.
-Proof. exact HazardProofs.own_slots_zero_mask. Qed.
-Print Assumptions own_slots_zero_mask.
+Theorem isort_sorted : forall l, Sorted.StronglySorted N.le (isort l).
+Proof. exact HazardProofs.isort_sorted. Qed.
+Print Assumptions isort_sorted.
 
 (* ------------------------------------------------------------------ qdqueue over atomic FIFO sub-queues *)
 Theorem dq_conservation : forall n alls progs sched,
